@@ -312,6 +312,17 @@ type Filled struct {
 	Texts   int
 }
 
+// BadTextDen: one in BadTextDen string-cast fields receives a text that is not
+// drawn from the always-valid generator (0 = never).
+var BadTextDen = 1
+
+func textFor(r *coqfmt.Rng, t reflect.Type) string {
+	if BadTextDen > 0 && r.Chance(1, BadTextDen) {
+		return rty.TextFor(r, t)
+	}
+	return rty.TextForValid(r, t)
+}
+
 // Fill builds a value of the translated type tt (of original type t under
 // chain c): every top-level field is filled with probability num/den;
 // string-cast fields receive texts appropriate for their original type.
@@ -340,6 +351,9 @@ func Fill(r *coqfmt.Rng, t, tt reflect.Type, c []M, num, den int) Filled {
 			continue
 		}
 		fv := v.Field(i)
+		if sf.Type == strPtrType && k >= 0 && positional && targets[i] != nil && !castable(targets[i]) && BadTextDen != 1 && !r.Chance(1, BadTextDen) {
+			continue // parse.String has no form for this type: leave the field unset most of the time
+		}
 		if sf.Type == strPtrType && (k >= 0 || hasTextU) {
 			var s string
 			var guess reflect.Type
@@ -348,9 +362,9 @@ func Fill(r *coqfmt.Rng, t, tt reflect.Type, c []M, num, den int) Filled {
 			}
 			switch {
 			case positional && targets[i] != nil:
-				s = rty.TextFor(r, targets[i])
+				s = textFor(r, targets[i])
 			case guess != nil:
-				s = rty.TextFor(r, guess)
+				s = textFor(r, guess)
 			default:
 				s = []string{"abc", "12", "true", "3s", "a,b"}[r.Intn(5)]
 			}
@@ -383,6 +397,29 @@ func Fill(r *coqfmt.Rng, t, tt reflect.Type, c []M, num, den int) Filled {
 	}
 	f.Oracle = coqfmt.List(entries)
 	return f
+}
+
+// castable: parse.String has a textual form for type t
+func castable(t reflect.Type) bool {
+	scalar := func(t reflect.Type) bool {
+		switch t.Kind() {
+		case reflect.Bool, reflect.String, reflect.Int, reflect.Int8, reflect.Int16, reflect.Int32, reflect.Int64,
+			reflect.Uint, reflect.Uint8, reflect.Uint16, reflect.Uint32, reflect.Uint64,
+			reflect.Float32, reflect.Float64, reflect.Complex64, reflect.Complex128:
+			return true
+		}
+		return false
+	}
+	switch t.Kind() {
+	case reflect.Slice:
+		return scalar(t.Elem())
+	case reflect.Map:
+		if t == reflect.TypeOf(map[string]struct{}{}) {
+			return true
+		}
+		return scalar(t.Key()) && scalar(t.Elem())
+	}
+	return scalar(t)
 }
 
 // leafDepths records the depths of the non-nil leaves below v.
